@@ -110,20 +110,31 @@ func (c *Ctx) rulesR6misc(only string, a *coreAnchors) {
 			if fl == nil {
 				continue
 			}
-			ws := writesOfFieldIn(f, fl)
+			var ws []fieldWrite
+			for _, hf := range c.hostedFns(f) {
+				ws = append(ws, writesOfFieldIn(hf, fl)...)
+			}
 			for i, w := range ws {
 				n++
 				bad := false
-				for _, g := range guardsOf(w.Instr.Block()) {
+				for _, g := range c.guardsHosted(w.Instr, f) {
 					if mentionsField(g.Cond, fDL) {
 						bad = true
 					}
 				}
 				// a store inside a short-circuit condition has no single dominating
 				// guard: every return it can reach must come after it on all paths
-				for _, r := range returnsOf(f) {
-					if canReach(w.Instr, r) && !dominatesInstr(w.Instr, r) {
+				// (in its own function and, for a hosted helper, at the call that
+				// stands for it in RemoteHello)
+				for _, at := range []ssa.Instruction{w.Instr, c.standIn(f, w.Instr)} {
+					if at == nil {
 						bad = true
+						continue
+					}
+					for _, r := range returnsOf(at.Parent()) {
+						if canReach(at, r) && !dominatesInstr(at, r) {
+							bad = true
+						}
 					}
 				}
 				c.check(!bad, "C09.helloalways", fmt.Sprintf("RemoteHello: lastPushData.%s store%s is independent of the tracer's state", fn, nth(i)), w.Instr.Pos(),
